@@ -11,20 +11,20 @@ VARIANTS = {"core": ("FALSE", "FALSE", "FALSE"), "extras": ("FALSE", "TRUE", "FA
             "all": ("TRUE", "TRUE", "FALSE"), "xfer": ("FALSE", "FALSE", "TRUE"), "xfer_extras": ("FALSE", "TRUE", "TRUE")}
 
 
-def mkcfg(universe, variant, depth, emitidx=True):
+def mkcfg(universe, variant, depth, emitidx=True, episodes=False):
     os.makedirs(GEN, exist_ok=True)
     faults, extras, transfers = VARIANTS[variant]
     txt = open(os.path.join(SPEC, "Manager.cfg.tmpl")).read()
     txt = (txt.replace("@FAULTS@", faults).replace("@EXTRAS@", extras).replace("@TRANSFERS@", transfers).replace("@DEPTH@", str(depth))
-           .replace("@EMITIDX@", "TRUE" if emitidx else "FALSE"))
-    p = os.path.join(GEN, f"MC_{universe}_{variant}_{depth}.cfg")
+           .replace("@EMITIDX@", "TRUE" if emitidx else "FALSE").replace("@EPISODES@", "TRUE" if episodes else "FALSE"))
+    p = os.path.join(GEN, f"MC_{universe}_{variant}_{depth}_{int(emitidx)}{int(episodes)}.cfg")
     with open(p, "w") as f:
         f.write(txt)
     return p
 
 
-def explore(universe, variant, depth, simulate=None, workers=2, emitidx=True, sd=0):
-    cfg = mkcfg(universe, variant, depth, emitidx)
+def explore(universe, variant, depth, simulate=None, workers=2, emitidx=True, sd=0, episodes=False):
+    cfg = mkcfg(universe, variant, depth, emitidx, episodes)
     out = os.path.join(GEN, f"MC_{universe}_{variant}_{depth}_{'sim%d' % simulate if simulate else 'bfs'}_{os.getpid()}.out")
     try:
         r = tlc.run(f"MC_{universe}.tla", cfg, workers=workers, simulate=simulate,
@@ -40,7 +40,7 @@ def explore(universe, variant, depth, simulate=None, workers=2, emitidx=True, sd
 
 
 def run(prop, level, rule, plans, tags=None, keys=("plain",), modes=("compiled",), hashseeds=(0,), nshards=8, queries=True,
-        extra_assume=(), episodes=0, cross_config=False, verdict=None, finish=True):
+        extra_assume=(), episodes=0, cross_config=False, verdict=None, finish=True, loops=(), nloops=0):
     """plans: list of dict(universe, variant, depth, simulate=None|N).  Returns exit code."""
     v = verdict or Verdict(prop, level, get_tier(), rule)
     tags = tags or [prop]
@@ -49,7 +49,7 @@ def run(prop, level, rule, plans, tags=None, keys=("plain",), modes=("compiled",
     graphs = []
     with cf.ThreadPoolExecutor(max_workers=4) as ex:
         futs = {ex.submit(explore, p["universe"], p["variant"], p["depth"], p.get("simulate"), 4, p.get("emitidx", True),
-                          seed() + i): p for i, p in enumerate(plans)}
+                          seed() + i, bool(p.get("episodes", episodes))): p for i, p in enumerate(plans)}
         for f in cf.as_completed(futs):
             g, r = f.result()
             graphs.append((futs[f], g, r))
@@ -64,7 +64,7 @@ def run(prop, level, rule, plans, tags=None, keys=("plain",), modes=("compiled",
             for mode in modes:
                 fails, st, samples = mr.run_replay(g, plan["universe"], kk, scratch[mode], mode, list(hashseeds), nshards, queries=queries,
                                                    fan_keep=plan.get("fan_keep", 1.0), seed=seed(),
-                                                   episodes=plan.get("episodes", episodes), digest=dig)
+                                                   episodes=plan.get("episodes", episodes), digest=dig, loops=loops, nloops=plan.get("nloops", nloops))
                 stats.update(st)
                 for s in samples[:1]:
                     v.sample({"universe": plan["universe"], "variant": plan["variant"], **s})
@@ -97,10 +97,21 @@ def run(prop, level, rule, plans, tags=None, keys=("plain",), modes=("compiled",
         percfg.append({**plan, "tlc_generated": r.states, "tlc_distinct": r.distinct, "emitted_states": len(g.states),
                        "emitted_transitions": len(g.edges), "tlc_wall_s": round(r.wall, 1)})
     v.add(stats["edges"])
-    v.set(states=tot_states, transitions=tot_trans, traces_validated_against_impl=stats["edges"],
-          distinct_nontrivial=stats["nontrivial"], configurations=percfg, replay_stats=dict(stats),
-          modes=list(modes), hashseeds=list(hashseeds), keys=list(keys),
-          exhaustive=all(not p.get("simulate") for p in plans))
+    if verdict is not None and "configurations" in v.cov:        # a further stage on the same verdict: accumulate
+        v.cov["states"] += tot_states
+        v.cov["transitions"] += tot_trans
+        v.cov["traces_validated_against_impl"] += stats["edges"]
+        v.cov["distinct_nontrivial"] += stats["nontrivial"]
+        v.cov["configurations"] += [dict(c, keys=list(keys)) for c in percfg]
+        rs = collections.Counter(v.cov["replay_stats"])
+        rs.update(stats)
+        v.cov["replay_stats"] = dict(rs)
+        v.cov["keys"] = sorted(set(v.cov["keys"]) | set(keys))
+    else:
+        v.set(states=tot_states, transitions=tot_trans, traces_validated_against_impl=stats["edges"],
+              distinct_nontrivial=stats["nontrivial"], configurations=percfg, replay_stats=dict(stats),
+              modes=list(modes), hashseeds=list(hashseeds), keys=list(keys),
+              exhaustive=all(not p.get("simulate") for p in plans))
     v.assume("Manager.tla is the reference; its universes are small (4-6 leaves, menus of 14-21 expressions)",
              "a transition is covered by replaying the BFS path to its source and then the transition on a fresh Manager",
              *extra_assume)
